@@ -6,6 +6,7 @@ CONSTANTS
   MaxDesc = 3
   EmMaxDesc = 2
   EmLong = TRUE
+  LongCerts = {"validRSA", "validRSAChain", "validRSANotYet", "validRSAExpired", "validEC", "malformedBase64", "badDER", "emptyString", "whitespaceOnly", "noX509CertificateElement"}
   Parts = {"idp", "sp"}
   Selection = "fixed"
 INIT Init
